@@ -626,7 +626,18 @@ impl<'a> Interp<'a> {
                     self.data.insert(loc.clone(), Val::Str(g.clone()));
                     sendid = Some(g);
                 }
-                let tgt = target.clone().unwrap_or_default();
+                let tgt = match target {
+                    Some(t) if t.starts_with("@var:") => match self.data.get(&t[5..]) {
+                        Some(Val::Str(v)) => v.clone(),
+                        Some(other) => val_to_string(other),
+                        None => {
+                            self.error_execution();
+                            return false;
+                        }
+                    },
+                    Some(t) => t.clone(),
+                    None => String::new(),
+                };
                 if tgt == "#_internal" {
                     if *delay_ms > 0 {
                         self.error_execution();
